@@ -262,7 +262,7 @@ class Exec:
     def __init__(s, mods, limits=None, params=None, concrete=None, allowed_throws=(), leakcheck=False):
         s.mods = mods; s.lim = limits or Limits(); s.params = params or {}; s.concrete = concrete
         s.allowed_throws = set(allowed_throws); s.leakcheck = leakcheck
-        s.solver = z3.Solver(); s.solver.set('timeout', min(s.lim.fast_ms, s.lim.query_ms)); s.fallbacks = 0; s.merges = 0
+        s.solver = z3.Solver(); s.solver.set('timeout', min(s.lim.fast_ms, s.lim.query_ms)); s.fallbacks = 0; s.merges = 0; s._pinned = []
         s.queries = 0; s.qtime = 0.0; s.qmax = 0.0; s.cache_hits = 0
         s.paths = []; s.violations = []; s.vkeys = set(); s.reached = {}; s.insn = 0; s.forks = 0
         s.gaddr = {}; s.fnids = {}; s.fnnames = []; s.ufs = {}; s.uf_used = {}; s.bytecache = {}; s.normcache = {}
@@ -585,7 +585,18 @@ class Exec:
         if k == 'agg': return [s.val(st, ev, et) for et, ev in v[1]]
         if k == 'bytes': return list(v[1])
         if k == 'cbin': return s.binop(st, v[1], (), v[2], s.val(st, v[3], v[2]), s.val(st, v[4], v[2]))
-        if k == 'float': return ('f', v[1])
+        if k == 'float':
+            # a float/double CONSTANT is carried as its IEEE bit pattern (so it can be stored / copied / reloaded);
+            # every floating point *operation* is still Inconclusive
+            rt = res(ty) if ty is not None else None
+            if isinstance(rt, FloatT) and rt.k in ('float', 'double'):
+                import struct
+                t = v[1]
+                if t.startswith('0x') and t[2:3] not in 'KLMHR': d = struct.unpack('<d', struct.pack('<Q', int(t, 16)))[0]
+                elif t.startswith('0x'): return ('f', t)
+                else: d = float(t)
+                return struct.unpack('<I', struct.pack('<f', d))[0] if rt.k == 'float' else struct.unpack('<Q', struct.pack('<d', d))[0]
+            return ('f', v[1])
         if k == 'ccast':
             x = s.val(st, v[3], v[2]); rf, rt = res(v[2]), res(v[4])
             if isinstance(x, Ptr): x = s.p2i(x)
